@@ -238,6 +238,7 @@ func libTemplates(c *core.Ctx, in *inputs) []*request {
 	add("lib-asr", map[string]string{"tree": in.rooted, "align": in.nucl}, algo, "", seed)
 	add("lib-acr", map[string]string{"tree": in.tree, "states": in.states}, algo, "", seed)
 	add("lib-acr", map[string]string{"tree": in.tree, "states": in.states}, algo, "random", seed)
+	add("lib-acr", map[string]string{"tree": in.tree, "states": in.statesCI}, "downpass", "", seed)
 	add("lib-mutations", map[string]string{"tree": in.named, "align": in.anc})
 	add("lib-eems-printed", map[string]string{"tree": in.named, "align": in.anc})
 	add("lib-eems", map[string]string{"tree": in.named, "align": in.anc})
